@@ -7,8 +7,9 @@ Called by gen_tables.py.  What is extracted from src/plumpy/processes.py:
   hands to `_schedule_rpc`, or of the first method of `self` it calls);
 * `rpcUnknownIntentRaises`: the exception class raised after the chain of `message_receive`;
 * `statusInfoKeys`: the keys `get_status_info` writes;
-* `stateChangedSubject`: the pieces of the f-string that builds the `state_changed…` subject in `on_entered`
-  (`<from>` stands for the label of the state left, `<to>` for `self.state.value`);
+* `stateChangedSubject`: the pieces of the `state_changed…` subject with `<from>` / `<to>` for the two labels, OBSERVED on a
+  trivial process with a recording communicator (`probe_subject`; robust against renamed locals), else parsed from the
+  f-string of `on_entered`;
 * `broadcastSubjectFilter`: the regular expression given to the `BroadcastFilter` in `Process.init`;
 * `subscriberIdentifier`: the expression passed as `identifier=` when subscribing.
 """
@@ -104,6 +105,60 @@ def subject_parts(fn):
     return []
 
 
+def probe_subject(plumpy):
+    """The subject template, observed rather than parsed (robust against renamed locals): run a trivial process with a recording
+    communicator, take the announcement of created -> running (two distinct labels) and abstract the labels; accept the
+    template only if it reproduces all three announcements.  None when the probe is inconclusive (then the AST is used)."""
+    import asyncio
+    import kiwipy
+
+    class Rec(kiwipy.LocalCommunicator):
+        def __init__(self):
+            super().__init__()
+            self.sent = []
+
+        def broadcast_send(self, body, sender=None, subject=None, correlation_id=None):
+            self.sent.append(subject)
+            return True
+
+    class Probe(plumpy.Process):
+        def run(self):
+            return None
+
+    loop = asyncio.new_event_loop()
+    try:
+        comm = Rec()
+        Probe(loop=loop, communicator=comm, pid='probe').execute()
+    except Exception:  # noqa
+        return None
+    finally:
+        loop.close()
+    want = [(None, 'created'), ('created', 'running'), ('running', 'finished')]
+    if len(comm.sent) != 3 or not all(isinstance(x, str) for x in comm.sent):
+        return None
+    mid = comm.sent[1]
+    if mid.count('created') != 1 or mid.count('running') != 1:
+        return None
+    tmpl = mid.replace('created', '\x00F').replace('running', '\x00T')
+    for (a, b), got in zip(want, comm.sent):
+        if tmpl.replace('\x00F', str(a)).replace('\x00T', b) != got:
+            return None
+    parts, cur, i = [], '', 0
+    while i < len(tmpl):
+        if tmpl[i] == '\x00':
+            if cur:
+                parts.append(cur)
+            cur = ''
+            parts.append('<from>' if tmpl[i + 1] == 'F' else '<to>')
+            i += 2
+        else:
+            cur += tmpl[i]
+            i += 1
+    if cur:
+        parts.append(cur)
+    return parts
+
+
 def init_facts(fn):
     flt, ident = '', ''
     for node in ast.walk(fn):
@@ -141,8 +196,8 @@ def gen_comms(plumpy, repo, header):
     out.append(f'def rpcUnknownIntentRaises : String := {lean_str(final_raise(fns["message_receive"]) if "message_receive" in fns else "")}')
     out.append('def statusInfoKeys : List String := ' + lean_list(
         lean_str(k) for k in (status_keys(fns['get_status_info']) if 'get_status_info' in fns else [])))
-    out.append('def stateChangedSubject : List String := ' + lean_list(
-        lean_str(p) for p in (subject_parts(fns['on_entered']) if 'on_entered' in fns else [])))
+    parts = probe_subject(plumpy) or (subject_parts(fns['on_entered']) if 'on_entered' in fns else [])
+    out.append('def stateChangedSubject : List String := ' + lean_list(lean_str(p) for p in parts))
     flt, ident = init_facts(fns['init']) if 'init' in fns else ('', '')
     out.append(f'def broadcastSubjectFilter : String := {lean_str(flt)}')
     out.append(f'def subscriberIdentifier : String := {lean_str(ident)}')
